@@ -144,6 +144,9 @@ extern "C" void harness()
   for (int step = 0; step < NCALLS; step++) {
     int op = nondet_int();
     VASSUME(op >= 0 && op <= 10);
+#ifdef FIRST_OP
+    if (step == 0) VASSUME(op == FIRST_OP);   // thorough tier: four calls, the first one fixed (all 4-call sequences exceed 200000 paths per profile)
+#endif
     bool threw = false;
     Model before = m;
     rec::gb_calls = 0; rec::ga_init_calls = 0; rec::op_calls = 0;
